@@ -1,4 +1,5 @@
 import Cutadapt.Properties.C09
+import Cutadapt.Proofs.RegroupDefault
 #print axioms Cutadapt.C09.best_is_argmax
 #print axioms Cutadapt.C09.best_none_iff
 #print axioms Cutadapt.C09.best_position_unique
@@ -18,3 +19,5 @@ import Cutadapt.Properties.C09
 #print axioms Cutadapt.C09.linked_none_untouched
 #print axioms Cutadapt.C09.linked_none_not_counted
 #print axioms Cutadapt.C09.with_adapters_iff_match
+#print axioms Cutadapt.C09.default_pipeline_without_index
+#print axioms Cutadapt.C09.default_paired_pipeline_without_index
